@@ -1,0 +1,12 @@
+//go:build !verif
+
+package libinjection
+
+// Verification hooks are compiled out unless the "verif" build tag is set.
+// These empty functions are inlined away.
+
+func verifSQLiEvent(kind int, s *sqliState) {}
+
+func verifFoldIter(s *sqliState, pos, left int, more bool, lastComment *sqliToken) {}
+
+func verifXSSEvent(kind int, h *h5State, flags int, attr int) {}
